@@ -95,6 +95,7 @@ CHECKS = {
         "level": "exploration",
         "tests": [{"name": "TestC16Small", "quick": 4000, "thorough": 768000}, {"name": "TestC16Wide", "quick": 30, "thorough": 5760, "min_per_shard": 8}, {"name": "TestC16Mid", "quick": 1000, "thorough": 192000}, {"name": "TestC16ManyFields", "quick": 100, "thorough": 9600, "min_per_shard": 20},
                   {"name": "TestC16Counts", "quick": 60, "thorough": 5760, "min_per_shard": 8},
+                  {"name": "TestC16Huge", "quick": 24, "thorough": 576, "min_per_shard": 6},
                   {"name": "TestC16Regress", "quick": 0}],
         "assumptions": COMMON_ASSUMPTIONS + ["reported field length equals the sum of the field's term frequencies (the property's stated domain)"],
     },
